@@ -50,19 +50,22 @@ Clauses(r) ==
                                  <<"CollectiveLockstep", CollectiveLockstep(r.log.ev)>> >>
       [] OTHER             -> << <<"unknown-record", FALSE>> >>
 
-Failed(r) == IF Has(r, "e") THEN (IF r.e = "End" THEN <<>> ELSE <<"recorder:" \o r.e>>)
-             ELSE FailedOf(Clauses(r))
-
-\* the real aggregates equal the transcription's (informational)
+\* the real aggregates equal the transcription's (informational: SPEC-DRIFT, never a verdict)
 Drifted(r) ==
     IF Has(r, "e") THEN FALSE
     ELSE IF r.k = "aggr" THEN ~SameFin(FinOfP(r.P, r.np), PmisRun(StrengthGraph(r.A, r.eps_num, r.eps_den), r.np, r.rp).fin)
     ELSE FALSE
 
+\* C12MODE=drift turns the same machinery into the drift pass: a "rejected" line is then a drifted one
+Mode == IF "C12MODE" \in DOMAIN IOEnv THEN IOEnv.C12MODE ELSE "judge"
+Failed(r) == IF Mode = "drift" THEN (IF Drifted(r) THEN <<"aggregates-differ-from-PmisRun">> ELSE <<>>)
+             ELSE IF Has(r, "e") THEN (IF r.e = "End" THEN <<>> ELSE <<"recorder:" \o r.e>>)
+             ELSE FailedOf(Clauses(r))
+
 TInit == l = 1 /\ bad = <<>> /\ drift = <<>>
 TNext == /\ l <= NLog /\ l' = l + 1
          /\ LET f == Failed(Log[l])
             IN  /\ bad' = IF f = <<>> THEN bad ELSE Append(bad, <<l, f>>)
-                /\ drift' = IF f = <<>> /\ Len(drift) < 20 /\ Drifted(Log[l]) THEN Append(drift, l) ELSE drift
-Verdict == (l = NLog + 1) => VerdictLine(l, bad) /\ PrintT(<<"DRIFT", drift>>)
+                /\ drift' = drift
+Verdict == (l = NLog + 1) => VerdictLine(l, bad)
 =============================================================================
